@@ -46,7 +46,7 @@ ASSUMPTIONS = [
     'unqualified column references and column types are not judged; no PostgreSQL executes the SQL',
     'sources are not normalised (constant extraction needs normalize.rs, which the substrate does not bridge)',
 ]
-MIN_EVALS = {'quick': 2500, 'thorough': 100000}
+MIN_EVALS = {'quick': 2500, 'thorough': 30000}
 
 _S: dict = {}
 _CAPTURE: list = []
@@ -319,7 +319,7 @@ def _run(rec, case, det_pool, order=None):
 
 def shard(rec, idx, nshards, seed, tier):
     preload()
-    n = 180 if tier == 'quick' else 6500
+    n = 180 if tier == 'quick' else 3000
     det_pool: list = []
     order: list = []
     core.run_given(_strategy(), lambda c: _run(rec, c, det_pool, order), seed=seed * 1000 + idx, max_examples=n)
